@@ -132,6 +132,8 @@ pub fn selector_builder<'a>(m: &Model, sel: &Sel) -> SelectorBuilder<'a> {
         Sel::Directional(v) => {
             SelectorBuilder::DirectionalSelector(v.iter().map(|s| selector_builder(m, s)).collect())
         }
+        // only meaningful at the top level (handled by annotation_builder); nested it is an empty complex selector
+        Sel::Missing => SelectorBuilder::MultiSelector(Vec::new()),
     }
 }
 
@@ -175,12 +177,20 @@ pub fn annotation_builder<'a>(
     target: &Sel,
     data: &[DataSpec],
 ) -> AnnotationBuilder<'a> {
-    let mut b = AnnotationBuilder::new().with_target(selector_builder(m, target));
+    let mut b = AnnotationBuilder::new();
+    if !matches!(target, Sel::Missing) {
+        b = b.with_target(selector_builder(m, target));
+    }
     if let Some(id) = id {
         b = b.with_id(id.clone());
     }
+    // references in each data item are resolved against the state the model predicts at that
+    // point of the request (an earlier item may have created the dataset a later one refers to)
+    let mut scratch = m.clone();
+    let mut fx = Effects::default();
     for spec in data {
-        b = b.with_data_builder(data_builder(m, spec));
+        b = b.with_data_builder(data_builder(&scratch, spec));
+        let _ = scratch.apply_dataspec(spec, &mut fx);
     }
     b
 }
